@@ -36,6 +36,7 @@ from .values import (
     PSet,
     Ref,
     SDict,
+    SSet,
     TypeRef,
     fresh,
     fresh_name,
@@ -245,7 +246,7 @@ def _sym_iter(ex, it, j):
     if isinstance(it, SSeq):
         return it.n, it.at(j)
     if isinstance(it, SV) and it.sort == "str":
-        return z3.Length(it.t), SV("str", z3.SubString(it.t, j, 1))
+        return z3.Length(it.t), SV("str", z3.SubString(it.t, j, 1), char=True)
     raise U(f"symbolic iteration over {it!r}")
 
 
@@ -655,13 +656,71 @@ def _noop(ex, st, args, kwargs):
     yield st, None
 
 
+def _traced(name):
+    def h(ex, st, args, kwargs):
+        st.trace.append(("call", name, None, tuple(args), ()))
+        yield st, None
+
+    return h
+
+
+class RegexVal:
+    def __init__(self, pattern, flags=0):
+        self.pattern = pattern
+        self.flags = flags
+
+
+def _re_compile(ex, st, args, kwargs):
+    if any(is_sym(a) for a in args):
+        raise U("re.compile of symbolic pattern")
+    yield st, RegexVal(args[0], args[1] if len(args) > 1 else 0)
+
+
+def _regex_test(kind):
+    def h(ex, st, rx, args, kwargs):
+        from .regex import anchored, to_z3
+
+        (s,) = args
+        for st1, w in ex.narrow(st, s):
+            if natural_sort(w) != "str":
+                yield ex.raise_(st1, "TypeError")
+                continue
+            if not is_sym(w):
+                import re
+
+                m = getattr(re.compile(rx.pattern, rx.flags), kind)(w)
+                yield st1, (Opaque("Match") if m else None)
+                continue
+            r = to_z3(rx.pattern, rx.flags)
+            a_s, a_e = anchored(rx.pattern)
+            anych = z3.Star(z3.Range(chr(0), chr(0x2FFFF)))
+            if kind == "fullmatch":
+                pass
+            elif kind == "match":
+                if not a_e:
+                    r = z3.Concat(r, anych)
+            else:  # search
+                if not a_s:
+                    r = z3.Concat(anych, r)
+                if not a_e:
+                    r = z3.Concat(r, anych)
+            # '$' also matches before a trailing newline
+            if a_e and kind != "fullmatch":
+                r = z3.Union(r, z3.Concat(r, z3.Re("\n")))
+            for st2, ok in ex.branch(st1, _wrap_bool(z3.InRe(w.t, r))):
+                yield st2, (Opaque("Match") if ok else None)
+
+    return h
+
+
 FUNCS = {
     "len": _len, "int": _int, "str": _str, "bool": _bool, "divmod": _divmod, "any": _any, "all": _all,
     "callable": _callable, "type": _type, "min": _minmax("min"), "max": _minmax("max"), "abs": _abs,
     "ord": _ord, "list": _list, "tuple": _tuple, "dict": _dict, "set": _set, "enumerate": _enumerate,
     "zip": _zip, "map": _map, "filter": _filter, "getattr": _getattr, "hasattr": _hasattr, "range": _range,
     "sys.intern": _intern, "typing.cast": _cast, "issubclass": _issubclass, "repr": _repr, "sum": _sum,
-    "float": _float, "sorted": _sorted, "print": _noop,
+    "float": _float, "sorted": _sorted, "print": _noop, "re.compile": _re_compile,
+    "warnings.warn": _traced("warnings.warn"),
 }
 
 
@@ -749,6 +808,9 @@ def _m_isdigit(ex, st, s, args, kwargs):
     r = z3.And(one, z3.Or(z3.And(code >= 48, code <= 57), z3.And(code > 127, uni(code))))
     if st is not None:
         st.notes.append("str.isdigit modelled for single characters only")
+    if s.char:
+        yield st, _wrap_bool(z3.Or(z3.And(code >= 48, code <= 57), z3.And(code > 127, uni(code))))
+        return
     for st1, single in ex.branch(st, _wrap_bool(one)):
         if single:
             yield st1, _wrap_bool(r)
@@ -767,6 +829,9 @@ def _m_isalpha(ex, st, s, args, kwargs):
     t = s.t
     uni = ex.uf("py_isalpha_nonascii", z3.IntSort(), z3.BoolSort())
     code = z3.StrToCode(t)
+    if s.char:
+        yield st, _wrap_bool(z3.Or(z3.And(code >= 65, code <= 90), z3.And(code >= 97, code <= 122), z3.And(code > 127, uni(code))))
+        return
     for st1, single in ex.branch(st, _wrap_bool(z3.Length(t) == 1)):
         if single:
             yield st1, _wrap_bool(z3.Or(z3.And(code >= 65, code <= 90), z3.And(code >= 97, code <= 122), z3.And(code > 127, uni(code))))
@@ -1063,6 +1128,10 @@ def _s_contains(ex, st, s, args, kwargs):
 def _s_add(ex, st, s, args, kwargs):
     s = st.deref(s)
     bm._mutable_check(ex, st, s)
+    if isinstance(s, SSet):
+        s.has = z3.Store(s.has, lift(args[0], s.esort), True)
+        yield st, None
+        return
     if is_sym(args[0]):
         raise U("set.add symbolic")
     s.items.add(args[0])
@@ -1084,6 +1153,8 @@ METHODS = {
     ("dict", "get"): _d_get, ("dict", "items"): _d_items, ("dict", "keys"): _d_keys,
     ("dict", "values"): _d_values, ("dict", "copy"): _d_copy, ("dict", "pop"): _d_pop,
     ("dict", "update"): _d_update, ("set", "__contains__"): _s_contains, ("set", "add"): _s_add,
+    ("regex", "search"): _regex_test("search"), ("regex", "match"): _regex_test("match"),
+    ("regex", "fullmatch"): _regex_test("fullmatch"),
 }
 
 
